@@ -1066,7 +1066,11 @@ class Phonopy:
 
     @masses.setter
     def masses(self, masses):
-        p_masses = np.array(masses)
+        p_masses = np.array(masses, dtype="double")
+        if p_masses.shape != (len(self._primitive),):
+            raise RuntimeError(
+                "Number of masses has to be the number of atoms in primitive cell."
+            )
         self._primitive.set_masses(p_masses)
         p2p_map = self._primitive.p2p_map
         s_masses = p_masses[[p2p_map[x] for x in self._primitive.s2p_map]]
